@@ -1,6 +1,7 @@
 package encryptcookie
 
 import (
+	"bytes"
 	"github.com/gofiber/fiber/v3"
 	"github.com/valyala/fasthttp"
 )
@@ -58,8 +59,30 @@ func New(config ...Config) fiber.Handler {
 			encrypted := false
 			c.Response().Header.VisitAllCookie(func(key, value []byte) {
 				cookieValue := fasthttp.Cookie{}
-				if isDisabled(string(key), cfg.Except) || cookieValue.ParseBytes(value) != nil {
+				if isDisabled(string(key), cfg.Except) {
 					lines = append(lines, append([]byte(nil), value...))
+					return
+				}
+				if cookieValue.ParseBytes(value) != nil {
+					// A line the cookie parser refuses (an attribute it cannot read, e.g. "max-age=soon" that came in
+					// with the value) still goes to the client, which takes the text between the first '=' and the
+					// first ';' as the value: that text is encrypted in place.
+					start := bytes.IndexByte(value, '=') + 1
+					end := bytes.IndexByte(value[start:], ';')
+					if start == 0 {
+						start, end = len(value), -1
+					}
+					if end < 0 {
+						end = len(value) - start
+					}
+					encryptedValue, err := cfg.Encryptor(string(value[start:start+end]), cfg.Key)
+					if err != nil {
+						panic(err)
+					}
+					line := append([]byte(nil), value[:start]...)
+					line = append(append(line, encryptedValue...), value[start+end:]...)
+					lines = append(lines, line)
+					encrypted = true
 					return
 				}
 				encryptedValue, err := cfg.Encryptor(string(cookieValue.Value()), cfg.Key)
